@@ -777,4 +777,56 @@ def appendAll (isForm : Bool) : Nat → List WPart → Except WErr (List Appende
 def boundaryOk (b : Bytes) : Bool :=
   b.length ≤ 70 && b.all (fun c => c.toNat < 128) && !b.any headerForbidden
 
+/-! ## file-like payloads (`payload.IOBasePayload`, `BytesIOPayload`): the remembered start position
+
+A part built from a file-like object that is positioned at `pos` when it is handed over.
+* `IOPayload.setOrRestore` = `IOBasePayload._set_or_restore_start_position`
+* `IOPayload.size`  = `IOBasePayload.size` (`st_size - start`, recording `start` on first use) or
+                      `BytesIOPayload.size` (`fixedSize`, computed in `__init__`)
+* `IOPayload.write` = `write` / `write_with_length(None)`: restore, then read to the end -/
+
+structure IOPayload where
+  buf : Bytes
+  pos : Nat
+  start : Option Nat := none
+  fixedSize : Option Nat := none
+deriving Repr
+
+inductive IOOp where
+  | size
+  | write
+deriving Repr
+
+def IOPayload.setOrRestore (p : IOPayload) : IOPayload :=
+  match p.start with
+  | none => { p with start := some p.pos }
+  | some s => { p with pos := s }
+
+def IOPayload.size (p : IOPayload) : Nat × IOPayload :=
+  match p.fixedSize with
+  | some n => (n, p)
+  | none =>
+    let p := match p.start with
+      | none => { p with start := some p.pos }
+      | some _ => p
+    (p.buf.length - p.start.getD 0, p)
+
+def IOPayload.write (p : IOPayload) : Bytes × IOPayload :=
+  let p := p.setOrRestore
+  (p.buf.drop p.pos, { p with pos := p.buf.length })
+
+inductive IOOut where
+  | size (n : Nat)
+  | data (b : Bytes)
+deriving Repr, DecidableEq
+
+def IOPayload.run : IOPayload → List IOOp → List IOOut
+  | _, [] => []
+  | p, .size :: ops => let r := p.size; .size r.1 :: IOPayload.run r.2 ops
+  | p, .write :: ops => let r := p.write; .data r.1 :: IOPayload.run r.2 ops
+
+/-- the payload `get_payload` builds from a file-like object at position `k` -/
+def IOPayload.create (buf : Bytes) (k : Nat) (bytesIO : Bool) : IOPayload :=
+  { buf := buf, pos := k, fixedSize := if bytesIO then some (buf.length - k) else none }
+
 end Aio.C19
